@@ -9,7 +9,7 @@ class Engine(DbEngine):
     aspects = {'stats.bytes', 'store.offset', 'reopen', 'store.result', 'ids.hash', 'offs', 'reopen-preserves', 'ids.has'}
     quick = (120, 40)
     thorough = (2500, 150)
-    rule = 'histories of store/remove/delete/reopen with content sizes straddling the 2048-byte debug chunk (10, 300, 1500, 2040, 2047, 2048, 4200 bytes; multi-chunk) in BOTH build profiles (debug: a file growth every few stores; release: 4 MiB chunks); after EVERY op every offset ever returned by a successful store is read back and compared (hash) with what was stored, every id is looked up; reopen inserted at random positions. oracle: read-back equals stored bytes, offsets pairwise distinct; correspondence: exact offsets and end marker vs the model. non-trivial = history with >= 2 stores'
+    rule = 'histories of store/remove/delete/reopen with content sizes straddling the 2048-byte debug chunk (10, 300, 1500, 2040, 2047, 2048, 4200 bytes; multi-chunk; and contents of 65535..131072 bytes, beyond every 16-bit length) in BOTH build profiles (debug: a file growth every few stores; release: 4 MiB chunks); after EVERY op every offset ever returned by a successful store is read back and compared (hash) with what was stored, every id is looked up; reopen inserted at random positions. oracle: read-back equals stored bytes, offsets pairwise distinct; correspondence: exact offsets and end marker vs the model. non-trivial = history with >= 2 stores'
     trusted = DbEngine.db_trusted
     assumptions = ['that bytes already written survive set_len/mremap growth is an OS fact: assumed by the model, observed by the harness']
 
@@ -44,4 +44,20 @@ class Engine(DbEngine):
             if sub.random() < 0.5:
                 g.ops.append(("reopen",))
             out.append(("exact-fill", g.render()))
+        # large contents: the content length is a 32-bit field; sizes around 2^16 (and one at 2^17) are stored among
+        # ordinary events, read back after every later op, across a reopen
+        for i in range(6 if tier == "quick" else 60):
+            sub = random.Random(rng.getrandbits(64))
+            g = HistGen(sub, {"new": 1}, sub.choice([0, 2])).run()
+            for size in sub.sample([65535, 65536, 65537, 70000, 131072, 40000], sub.choice([2, 3])):
+                e = g.new_event(kind=sub.choice([1, 30023]), pk=sub.choice(AUTHORS), tags=[[b"d", b"big"]] if sub.random() < 0.5 else [])
+                e["content"] = bytes([65 + size % 23]) * size
+                e["id"] = fake_id(e)
+                g.op_store(e)
+                g.note_event(e)
+                if sub.random() < 0.5:
+                    g.g_store_new()
+            g.ops.append(("reopen",))
+            g.g_store_new()
+            out.append(("large-content", g.render()))
         return out
